@@ -123,7 +123,7 @@ theorem coreCls_trans (tb : Tables) (ht : tb.Trans) (rec : Ty → Ty → Bool) (
   case listT.listT.listT a b c => exact ht.list _ _ _ h2 h1
   case func.func.func a1 r1 a2 r2 a3 r3 =>
     obtain ⟨ha, hr⟩ := hrec a1 r1 a2 r2 a3 r3 rfl rfl rfl
-    exact ⟨⟨⟨h1.1.1.1, h2.1.1.2⟩, ha h1.1.2 h2.1.2⟩, hr h1.2 h2.2⟩
+    exact ⟨ha h1.1 h2.1, hr h1.2 h2.2⟩
 
 theorem isRestriction_empty_right (tb : Tables) (t1 : Ty) :
     isRestriction tb t1 .empty = (t1.beq .empty || t1.ownOcc == .opt || t1.ownOcc == .star) := by
